@@ -29,12 +29,15 @@ structure Impl where
   /-- `EnumType` has neither `name()` nor `identifier`: formatting the "value is not within the types"
       message of a union that mentions an enum raises `AttributeError` instead of the `ValueError`. -/
   enumNameFails : Bool
+  /-- a validation that raises clears the `_validated` flags it has set (as found: the flag is set before
+      the checks, l.707, and stays set when they raise) -/
+  resetOnFail : Bool
 deriving DecidableEq, Repr
 
 /-- the source as it is at the time of writing -/
-def Impl.current : Impl := ⟨true, true, true, false, true⟩
+def Impl.current : Impl := ⟨true, true, true, false, true, false⟩
 /-- the source with the proposed patches -/
-def Impl.repaired : Impl := ⟨false, false, false, true, false⟩
+def Impl.repaired : Impl := ⟨false, false, false, true, false, true⟩
 
 /-- exception classes, as far as the code distinguishes them: `invalid` = `TypeError`/`ValueError`
     (the two classes `UnionType.validate` catches), `assertion` = `AssertionError`, `overflow` =
@@ -214,6 +217,46 @@ def unionFree : Ty → Bool
   | list t => t.unionFree
   | dict t => t.unionFree
   | union _ => false
+  | _ => true
+
+mutual
+/-- no configuration class anywhere in the type -/
+def cfgFree : Ty → Bool
+  | cfg _ => false
+  | opt t => t.cfgFree
+  | list t => t.cfgFree
+  | dict t => t.cfgFree
+  | union ts => cfgFreeAll ts
+  | _ => true
+def cfgFreeAll : List Ty → Bool
+  | [] => true
+  | t :: ts => t.cfgFree && cfgFreeAll ts
+end
+
+mutual
+/-- alternatives a union may list inside the domain of `validate_conforming_id_union`: types whose
+    `validate` neither converts to an unequal value (`str`→`Path`, large `int`→`float`, anything→`bool`)
+    nor accepts everything -/
+def alt : Ty → Bool
+  | int => true
+  | str => true
+  | enum _ => true
+  | cfg _ => true
+  | list t => t.alt
+  | dict t => t.alt
+  | union ts => altAll ts
+  | _ => false
+def altAll : List Ty → Bool
+  | [] => true
+  | t :: ts => t.alt && altAll ts
+end
+
+/-- every union in the type lists only `alt` alternatives -/
+def unionDom : Ty → Bool
+  | opt t => t.unionDom
+  | list t => t.unionDom
+  | dict t => t.unionDom
+  | union ts => altAll ts
   | _ => true
 
 end Ty
@@ -531,9 +574,11 @@ def walkNode (items : Nat → List Item) : Nat → List Nat → Nat → Out × L
   | 0, vis, _ => (.fuel, vis)
   | f + 1, vis, n => if n ∈ vis then (.ok, vis) else walkItems (walkNode items f) (n :: vis) (items n)
 
-/-- `root.__xpm__.validate()` when the nodes in `vis` were validated before -/
+/-- `root.__xpm__.validate()` when the nodes in `vis` carry the `_validated` flag from earlier calls:
+    the outcome and the flags afterwards -/
 def validateFrom (I : Impl) (g : Graph) (vis : List Nat) (root : Nat) : Out × List Nat :=
-  walkNode (nodeItems I.deepValidate g) (g.nodes.length + 1) vis root
+  let r := walkNode (nodeItems I.deepValidate g) (g.nodes.length + 1) vis root
+  if I.resetOnFail && r.1 != .ok then (r.1, vis) else r
 
 /-- `root.__xpm__.validate()` on fresh objects -/
 def validateGraph (I : Impl) (g : Graph) (root : Nat) : Out := (validateFrom I g [] root).1
@@ -554,6 +599,11 @@ def allSuccs (g : Graph) (n : Nat) : List Nat := visits (nodeItems true g n)
 inductive Reach (S : Nat → List Nat) (a : Nat) : Nat → Prop
   | refl : Reach S a a
   | step {b c : Nat} : Reach S a b → c ∈ S b → Reach S a c
+
+/-- the flags of earlier validations are trustworthy: every flagged node is complete and all the nodes
+    the walk would visit from it are flagged -/
+def FlagsOk (I : Impl) (g : Graph) (vis : List Nat) : Prop :=
+  ∀ m ∈ vis, nodeMissing g m = false ∧ ∀ k ∈ succs I g m, k ∈ vis
 
 /-- references stay inside the graph -/
 def Graph.WF (g : Graph) : Prop := ∀ n, n < g.nodes.length → ∀ m ∈ allSuccs g n, m < g.nodes.length
